@@ -163,7 +163,7 @@ class Gen:
         elif fam == "churn":
             self.nf, self.nt, self.nk, self.ne, self.nr = r.choice([1, 2, 3, 5]), r.choice([0, 1]), r.choice([0, 1]), 0, 0
         elif fam == "deadline":
-            self.nf, self.nt, self.nk, self.ne, self.nr = r.choice([0, 1, 2]), r.choice([1, 2, 4, 6]), r.choice([0, 1]), 0, 0
+            self.nf, self.nt, self.nk, self.ne, self.nr = r.choice([0, 1, 2]), r.choice([1, 2, 4, 6, 9, 14]), r.choice([0, 1]), 0, 0
         elif fam == "tasks":
             self.nf, self.nt, self.nk = r.choice([0, 1]), r.choice([0, 1, 2]), r.choice([1, 2, 3, 4])
             self.ne, self.nr = (r.choice([0, 1]) if self.events else 0), 0
@@ -221,7 +221,13 @@ class Gen:
             for i in range(1, self.nr + 1): acts += [f"rawreg r{i}", f"rawpost r{i}"]
         if fam == "deadline":
             far = r.choice([50000000, 200000000, 1000000000])
-            for i in range(self.nt): acts.append(f"trel t{i} {far if r.random() < 0.6 else self.delta()}")
+            if self.nt >= 6 and r.random() < 0.7:
+                # a populated heap with distinct deadlines, then removals of interior elements: the earliest
+                # remaining deadline must still be honoured
+                for i in range(self.nt): acts.append(f"trel t{i} {r.randrange(1, 40) * 1000000}")
+                for _ in range(r.choice([1, 2, 3])): acts.append(f"tunreg t{r.randrange(self.nt)}")
+            else:
+                for i in range(self.nt): acts.append(f"trel t{i} {far if r.random() < 0.6 else self.delta()}")
             for i in range(self.nf): acts.append(f"reg f{i} 100")
             for i in range(self.nf):
                 L.append(f"on f{i}.in * : rd f{i}")
